@@ -9,6 +9,7 @@ import (
 	"fmt"
 	"sort"
 	"strings"
+	"sync/atomic"
 	"testing"
 
 	"github.com/cockroachdb/pebble"
@@ -45,7 +46,7 @@ type obs struct {
 type h struct {
 	sc    scen
 	x     *hx.X
-	done  []bool
+	done  []atomic.Bool // read by readers while committers run: goes through the scheduler shims
 	errs  []error
 	obs   []*obs
 	close error
@@ -72,7 +73,7 @@ func (s *h) Setup() {
 			panic(err)
 		}
 	}
-	s.done = make([]bool, len(s.sc.batches))
+	s.done = make([]atomic.Bool, len(s.sc.batches))
 	s.errs = make([]error, len(s.sc.batches))
 }
 
@@ -146,7 +147,7 @@ func (s *h) Threads() []func() {
 				o = pebble.Sync
 			}
 			s.errs[i] = s.x.D.Apply(b, o)
-			s.done[i] = true
+			s.done[i].Store(true)
 			b.Close()
 		})
 	}
@@ -155,7 +156,10 @@ func (s *h) Threads() []func() {
 		o := &obs{kind: kind}
 		s.obs = append(s.obs, o)
 		fs = append(fs, func() {
-			o.started = append([]bool(nil), s.done...)
+			o.started = make([]bool, len(s.done))
+			for i := range s.done {
+				o.started[i] = s.done[i].Load()
+			}
 			d := s.x.D
 			switch kind {
 			case "iter-fwd", "iter-bwd":
@@ -285,7 +289,7 @@ func judge(hh vsched.Harness, x *vsched.Exec) (string, string, string) {
 		if e != nil {
 			return "apply-error", "apply-error", fmt.Sprintf("Apply of batch %d returned %v", i, e)
 		}
-		if !s.done[i] {
+		if !s.done[i].Load() {
 			return "hang", "apply-did-not-return", fmt.Sprintf("batch %d", i)
 		}
 	}
